@@ -575,4 +575,58 @@ theorem simLL (cfg : Cfg) (env : TEnv) (hE : cfg.elements = env.elements) :
 end
 
 
+
+/-! ### whole programs -/
+
+theorem rel_init (flags : String) (inputs : List Val) : Rel (initState flags inputs) (initPy flags inputs) := by
+  refine ⟨rfl, rfl, rfl, ?_, rfl, rfl, rfl, rfl, rfl, rfl, rfl, rfl, ?_, ?_⟩
+  · by_cases hH : flags.contains 'H' <;> simp [initPy, initState, lookupP, hH]
+  · intro x hx hl
+    simp [initPy, initState, lookupP, lookupKV]
+  · intro f hj hs
+    simp only [initPy, lookupP]
+    have : ((("stack" : String), ([] : List Nat)) = (f, [])) = False := by
+      simp; exact fun h => hs h.symm
+    simp [this]
+
+theorem pop1_printed (σ : RSt) : σ.pop1.2.printed = σ.printed := by
+  simp only [RSt.pop1]; split <;> rfl
+theorem pop1_out (σ : RSt) : σ.pop1.2.out = σ.out := by
+  simp only [RSt.pop1]; split <;> rfl
+
+theorem finish_sim {σ σ' : RSt} {π : PSt} (flags : String) (h : Rel σ π) (hf : finish flags σ = .ok σ') :
+    ∃ π', finishPy flags π = .ok π' ∧ π'.out = σ'.out := by
+  unfold finish at hf
+  unfold finishPy
+  rw [h.getStack]
+  simp only [popPy_rev, h.inputs]
+  have hp := popK_one σ
+  have hpn : (popN 1 σ.stack σ.inputs).1 = [σ.pop1.1] := by simpa [RSt.popK] using hp.1
+  have hp2 : (popN 1 σ.stack σ.inputs).2.1 = σ.pop1.2.stack := by
+    have := hp.2; simp [RSt.popK] at this; rw [← this]
+  simp only [hpn, List.headD_cons, hp2, List.reverse_reverse, List.isEmpty_reverse]
+  cases ho : List.foldlM (fun o c => applyFlag σ.stack.isEmpty σ.pop1.2.stack c o) (OutV.val σ.pop1.1) flags.toList with
+  | error e => simp [ho] at hf
+  | ok o =>
+    simp only [ho, R_ok_bind, pop1_printed, h.printed.symm] at hf ⊢
+    split at hf
+    · rename_i hc
+      simp only [hc, ↓reduceIte]
+      cases o with
+      | text s =>
+        simp at hf; subst hf
+        exact ⟨_, rfl, by simp [PSt.print, RSt.print, pop1_out, h.out]⟩
+      | val v =>
+        simp only at hf ⊢
+        cases hp : printText v with
+        | error e => simp [hp] at hf
+        | ok s =>
+          simp [hp] at hf ⊢; subst hf
+          simp [PSt.print, RSt.print, pop1_out, h.out]
+    · rename_i hc
+      simp only [hc, ↓reduceIte]
+      simp at hf; subst hf
+      exact ⟨_, rfl, by simp [pop1_out, h.out]⟩
+
+
 end Vy.Sem
